@@ -9,9 +9,28 @@ if [ ! -f "$B/build.ninja" ] && [ ! -f "$B/Makefile" ]; then
 	cmake -G Ninja -S "$REPO" -B "$B" -DUNIT_TESTING=ON >/dev/null || exit 2
 fi
 cmake --build "$B" 2>&1 | grep -E "error|FAILED" && { echo "baseline: build failed"; exit 1; }
-OUT=$(ctest --test-dir "$B" -j8 --timeout 900 2>&1)
-echo "$OUT" | tail -12
-FAILED=$(echo "$OUT" | grep -E "^\s+[0-9]+ - " | awk '{print $3}' | sort | tr '\n' ' ')
+run_suite() {
+	OUT=$(ctest --test-dir "$B" -j8 --timeout 900 2>&1)
+	echo "$OUT" | tail -12
+	FAILED=$(echo "$OUT" | grep -E "^\s+[0-9]+ - " | awk '{print $3}' | sort | tr '\n' ' ')
+}
+unexpected() {
+	for t in $FAILED; do
+		case $t in test_live_validation|test_dynamic_groups) ;; *) return 0;; esac
+	done
+	return 1
+}
+# tests/unittests/test_packets_static.c:test_rtr_send_error_pdu reads an uninitialised `struct rtr_socket`
+# from its stack; whether its .state happens to be RTR_SHUTDOWN (9) depends on what lrtr_dbg's timestamp code
+# left there - it fails during minute 9 of every hour on the pinned tree too.  An unexpected failure is
+# therefore retried after the minute has passed (twice at most) before it counts.
+run_suite
+for attempt in 1 2; do
+	unexpected || break
+	echo "baseline: unexpected failure ($FAILED) - retrying in 65 s (time-dependent unit test, see comment)"
+	sleep 65
+	run_suite
+done
 for t in $FAILED; do
 	case $t in
 	test_live_validation|test_dynamic_groups) ;;
